@@ -13,7 +13,7 @@ U_forms == {LenAtom("<=", 1, "L", "none", f) : f \in {"nonconst", "conj"}}
 
 SeqsUpTo(U, n) == UNION {[1..m -> U] : m \in 0..n}
 NeedsOpt(cs) == \E j \in 1..Len(cs) : \E a \in Range(cs[j]) : a.g \in SameGuards
-Mk(kind, cs, ps) == [kind |-> kind, opt |-> NeedsOpt(cs), wmt |-> TRUE, cls |-> cs, prim |-> ps]
+Mk(kind, cs, ps) == [kind |-> kind, opt |-> NeedsOpt(cs), wmt |-> TRUE, shape |-> "chain", cls |-> cs, prim |-> ps]
 
 \* shape "one": one class, up to MaxAtoms atoms from the full universe (match + reduce)
 S_one   == IF Narrow
@@ -27,7 +27,12 @@ S_chain == {Mk("str", <<a, b, c>>, <<>>) : a \in SeqsUpTo(U_chain, 1), b \in Seq
 S_prim  == {Mk(kind, <<c1, c2>>, <<p1, p2>>) : kind \in {"cprim", "listcprim"},
                p1 \in SeqsUpTo(U_small, 1), p2 \in SeqsUpTo(U_small, 1), c1 \in SeqsUpTo(U_small, 1), c2 \in SeqsUpTo(U_small, 1)}
 
-ScenariosDef == (IF "one" \in Shapes THEN S_one ELSE {})
+\* shape "dia": the diamond C1 <- C2, C1 <- C3, C4(C2, C3) / C4(C3, C2) with atoms on both parents (and on C4)
+S_dia   == {[Mk("str", <<<<>>, a, b, d>>, <<>>) EXCEPT !.shape = sh] :
+               sh \in {"dia_ab", "dia_ba"}, a \in SeqsUpTo(U_chain, 1), b \in SeqsUpTo(U_chain, 1),
+               d \in IF Narrow THEN {<<>>} ELSE SeqsUpTo(U_small, 1)}
+
+ScenariosDef == (IF "dia" \in Shapes THEN S_dia ELSE {}) \cup (IF "one" \in Shapes THEN S_one ELSE {})
                 \cup (IF "chain" \in Shapes THEN S_chain ELSE {})
                 \cup (IF "prim" \in Shapes THEN S_prim ELSE {})
 =============================================================================
